@@ -21,9 +21,13 @@ from pyvc.values import (DictObj, Exc, FuncV, ListObj, Obj, Opaque, Ref, Sc, SV,
 REGISTRY: Dict[str, "Contract"] = {}
 
 
-def contract(target: str, prop: Sequence[str] = (), name: Optional[str] = None):
+def contract(target: str, prop: Sequence[str] = (), name: Optional[str] = None, key: Optional[str] = None):
+    """`key`: register under another key than the target (a second, non-modular contract of the same function that is
+    only ever verified explicitly, e.g. a bounded-by-length view of a loop)"""
     def deco(cls):
         c = Contract(target, cls, list(prop), name or cls.__name__)
+        if key:
+            c.key = key
         REGISTRY[c.key] = c
         cls.__contract__ = c
         return cls
@@ -363,6 +367,7 @@ class Contract:
         self.clause_props: Dict[str, Sequence[str]] = getattr(cls, "clause_props", {})
         self.never_raises: Sequence[str] = getattr(cls, "never_raises", ())
         self.ghost_specs: Dict[str, Callable] = getattr(cls, "ghost_specs", {})
+        self.ghost_inherit: Dict[str, Callable] = getattr(cls, "ghost_inherit", {})
         self.runtime_checkable: bool = bool(getattr(cls, "runtime_checkable", False))
         self.case_posts: Dict[int, Sequence[str]] = getattr(cls, "case_posts", {})
 
@@ -489,12 +494,19 @@ class Contract:
                 s.ghost[g] = res  # ghost variables the callee establishes (e.g. the root the fold produced)
             for g, mk in self.ghost_specs.items():
                 s.ghost[g] = mk().make(ex, s, "ghost_" + g)  # the callee's own ghost: some value of this shape
+            for g, mk in self.ghost_inherit.items():
+                if g not in s.ghost:  # ambient ghost state (e.g. the context-local text): unknown if never set
+                    s.ghost[g] = mk().make(ex, s, "ghost_" + g)
             env = dict(bound)
             env["result"] = res
             for gk, gv in s.ghost.items():
                 if isinstance(gk, str) and not isinstance(gv, (int, list, dict)):
                     env["ghost_" + gk] = gv
             for p in self.posts:
+                names = [a.arg for a in self.clause_fn(ex, p).node.args.args]
+                known = set(self.ghost_out) | set(self.ghost_specs) | set(self.ghost_inherit)
+                if any(n.startswith("ghost_") and n[6:] not in known for n in names):
+                    continue  # a clause about the callee's internal calls: has no meaning at a call site
                 s.assume(self.clause_formula(ex, s, p, env))
             if ex.feasible(s.pc):
                 outs.append((s, res))
